@@ -97,6 +97,94 @@ def reconcile (old : St) (composed : List Res) (explicit : Option Bool) (fn : Li
     let (st1, _) := applyFnConds old fn
     some { st1 with conds := setCond (setCond st1.conds (syncedCond composed)) (readyCond composed explicit) }
 
+/-! ### One reconcile in full: every phase, every API error class, lost status writes
+
+`reconcile` above is the Compose-centred special case (`reconcile_eq_call`). -/
+
+/-- API error classes the reconciler may be answered with, in any phase. -/
+inductive EC where
+  | generic | invalid | conflict | notFound | alreadyExists | forbidden | temporary | deadline
+  deriving DecidableEq, Repr
+
+/-- Where a reconcile fails: the first Get, AddFinalizer, SelectComposition, revision Fetch,
+Validate, Configure, Compose, PublishConnection. -/
+inductive Phase where
+  | get | finalizer | select | fetch | validate | configure | compose | publish
+  deriving DecidableEq, Repr
+
+/-- the phases whose error the reconciler tests with kerrors.IsConflict (requeue, no status write) -/
+def Phase.conflictAware : Phase → Bool
+  | .finalizer | .configure | .compose | .publish => true
+  | _ => false
+
+def reconcilePaused : Cond := ⟨"Synced", "False", "ReconcilePaused"⟩
+
+/-- Everything one call of Reconciler.Reconcile depends on (besides the XR's stored conditions). -/
+structure Call where
+  paused : Bool
+  composed : List Res
+  explicit : Option Bool
+  fn : List FnCond
+  fault : Option (Phase × EC)
+  /-- the final status update is not applied: it is answered with an error (any class), or it
+  conflicts because the XR was read stale or edited by another client in between -/
+  lost : Bool
+  deriving Repr
+
+/-- the status written when Compose failed fatally -/
+def composeError (old : St) (fn : List FnCond) : St :=
+  let st1 : St := { old with conds := setCond old.conds reconcileError }
+  let r := applyFnConds st1 fn
+  { r.1 with conds := markUnknown r.2 r.1.conds r.1.conds }
+
+/-- the status written when everything succeeded -/
+def composeOk (old : St) (composed : List Res) (explicit : Option Bool) (fn : List FnCond) : St :=
+  let st1 := (applyFnConds old fn).1
+  { st1 with conds := setCond (setCond st1.conds (syncedCond composed)) (readyCond composed explicit) }
+
+/-- The status stored by one call of Reconcile; `none` = no status write took effect. -/
+def reconcileCall (old : St) (c : Call) : Option St :=
+  if c.lost then none else
+  match c.fault with
+  | some (.get, _) => none
+  | f =>
+    if c.paused then some { old with conds := setCond old.conds reconcilePaused } else
+    match f with
+    | none => some (composeOk old c.composed c.explicit c.fn)
+    | some (p, e) =>
+      if p.conflictAware && e == .conflict then none
+      else if p == .compose then some (composeError old c.fn)
+      else some { old with conds := setCond old.conds reconcileError }
+
+/-! ### Sequences of reconciles of several XRs by one long-lived reconciler
+
+The model is per call: the only state a call sees is the addressed XR's stored conditions. -/
+
+structure Step where
+  xr : Nat
+  call : Call
+  deriving Repr
+
+/-- one step: the new per-XR states and what was written (none = nothing) -/
+def stepSeq (sts : List St) (s : Step) : List St × Option St :=
+  match sts[s.xr]? with
+  | none => (sts, none)
+  | some old =>
+    match reconcileCall old s.call with
+    | none => (sts, none)
+    | some st => (sts.set s.xr st, some st)
+
+def runSeq : List St → List Step → List St
+  | sts, [] => sts
+  | sts, s :: ss => runSeq (stepSeq sts s).1 ss
+
+/-- per step: the addressed XR's state after the step, and whether a status write took effect -/
+def traceSeq : List St → List Step → List (Option St × Bool)
+  | _, [] => []
+  | sts, s :: ss =>
+    let r := stepSeq sts s
+    (r.1[s.xr]?, r.2.isSome) :: traceSeq r.1 ss
+
 /-- Claim reconciler: Ready=True (Available) is set only on the path where the
 bound XR, as read after syncing, has Ready=True. Otherwise Waiting. -/
 def claimReady (xrReadyStatus : Option String) : Cond :=
